@@ -14,7 +14,8 @@ from xml.sax.saxutils import escape, quoteattr
 
 from . import refconv
 
-DT_XML = {"wrap": "zcv.dts.wrap", "reject": "zcv.dts.reject", "boom": "zcv.dts.boom", "boomkey": "zcv.dts.boomkey"}
+DT_XML = {"wrap": "zcv.dts.wrap", "reject": "zcv.dts.reject", "boom": "zcv.dts.boom", "boomkey": "zcv.dts.boomkey",
+          "dcerr": "zcv.dts.dcerr"}
 
 
 # -- document constructors ---------------------------------------------------
